@@ -22,6 +22,10 @@
 (*  C09.WrapAddSub        + / += / - / -= u16 wrap modulo M                 *)
 (*  C09.ToleranceIsW      the crate's WRAP_TOLERANCE is the W of this spec  *)
 (*  C09.NoPanic                                                             *)
+(*                                                                         *)
+(* W (cfg) = 32767 = M/2 - 1: at least the largest window in packets the   *)
+(* configuration allows and the largest tolerance 16-bit arithmetic admits *)
+(* (2W < M).  The former value 1024 was the defect D8.                     *)
 (***************************************************************************)
 EXTENDS SeqArith, Sequences, FiniteSets, TLC, TLCExt, Json, IOUtils
 
